@@ -153,7 +153,7 @@ class Validator:
                 d.cfg, v[2], owner, tokstr.get(owner, "-"), int(v[3]))
         if v[0] in ("ast", "cycle", "link"):
             return "cfg %r: %s inconsistency at %s" % (d.cfg, v[0], tok(v[1]))
-        if v[0] in ("bracket", "unmatched"):
+        if v[0] in ("bracket", "unmatched", "nesting"):
             toks = [e for e in d.elems if e[0] == "T"]
             i = int(v[1])
             ctx = " ".join(e[2] for e in toks[max(0, i - 6):i + 7])
